@@ -539,9 +539,16 @@ def register_input_features(mod: fx.GraphModule):
 
 
 def register_in_mps_quantizers(mod: fx.GraphModule):
+    registered = set()
     for n in mod.graph.nodes:
         if is_inherited_layer(n, mod, (MPSModule,)):
             sub_mod = cast(MPSModule, mod.get_submodule(str(n.target)))
+            # a layer invoked twice keeps the producer of its FIRST call site: that quantizer has
+            # always been sampled in the current forward pass when the layer reads its scale
+            # (a later call site may be fed by the layer itself, whose coefficients would be
+            # read before they are re-sampled)
+            if sub_mod in registered:
+                continue
             # the tensor consumed by `n` was quantized by the nearest searchable producer
             prev_n = n.all_input_nodes[0]
             while prev_n.op != 'placeholder' and \
@@ -551,6 +558,7 @@ def register_in_mps_quantizers(mod: fx.GraphModule):
                 continue
             prev_submod = mod.get_submodule(str(prev_n.target))
             sub_mod.in_mps_quantizer = cast(MPSPerLayerQtz, prev_submod.out_mps_quantizer)
+            registered.add(sub_mod)
 
 
 def mps_features_calc(n: fx.Node, mod: fx.GraphModule) -> Optional[ModAttrFeaturesCalculator]:
